@@ -84,6 +84,11 @@ def run_mc(pid, module, template, shards, par, timeout, seed=None):
 
 def split_groups(lines, k):
     """Split an observation file into k chunks at `reset` boundaries (each chunk is self-contained)."""
+    if not any(l.startswith('{"a":"reset"') for l in lines[:1]):
+        # independent lines (one case per line): contiguous even slices
+        k = max(1, min(k, len(lines)))
+        n = (len(lines) + k - 1) // k
+        return [lines[i:i + n] for i in range(0, len(lines), n)]
     groups, cur = [], []
     for l in lines:
         if l.startswith('{"a":"reset"') and cur:
